@@ -45,7 +45,14 @@ def advertised_distance(enc, cfg):
 
 def _cfgs(tier):
     fams = {"hamming", "golay", "repetition", "spc", "rm", "cyclic", "cyclic_h", "bch", "rs"}
-    return [c for c in codes.catalogue(tier) if c.family in fams]
+    out = [c for c in codes.catalogue(tier) if c.family in fams]
+    # the first BCH codes whose generator polynomial is NOT a minimum-weight codeword are at length 31 ((31,21): wt(g) = 7, d = 5;
+    # (31,16): wt(g) = 11, d = 7): the quick catalogue stops at length 15, where wt(g) == d for every Bose distance, so an
+    # advertised distance computed from wt(g) would go unnoticed.  Exact enumeration of 2^21 / 2^16 words: about 3 s.
+    for c in (Cfg("bch", 5, 5, "left"), Cfg("bch", 5, 7, "left")):
+        if c not in out:
+            out.append(c)
+    return out
 
 
 @obligation(
